@@ -144,3 +144,55 @@ Definition chcountZ (c : Z) : nat := if c =? 0 then 1 else if c =? 1 then 1 else
 (* an image given as the flat list of its channel values *)
 Definition encode_image (f channels prec : Z) (values : list Z) : list Z :=
   flat_map (fun px => encode_px f (to_rgba_f32 channels prec px)) (chunksZ (length values) (chcountZ channels) values).
+
+(* ---- sub-sampled (ids 35..41) and bi-planar (42..44) encoders: src/encode/sub_sampled.rs, bi_planar.rs *)
+Definition qf8 (x : fl) : Z := q 255 255 x.
+Definition mid (a b : Z) : Z := (a + b) / 2.
+Definition yuv8_from (p : list Z) : list Z := yuv_from 255 16 128 255 false (nth 0 p 0) (nth 1 p 0) (nth 2 p 0).
+Definition yuv10_from (p : list Z) : list Z := yuv_from 1023 64 512 65535 true (nth 0 p 0) (nth 1 p 0) (nth 2 p 0).
+Definition yuv16_from (p : list Z) : list Z := yuv_from 65535 4096 32768 65535 false (nth 0 p 0) (nth 1 p 0) (nth 2 p 0).
+(* one macro pixel: blk holds the 2 (R1: 8) pixels as rgba bit patterns *)
+Definition encode_macro (f : Z) (blk : list (list Z)) : list Z :=
+  let p0 := nth 0 blk [] in let p1 := nth 1 blk [] in
+  let avg := fun c => qf8 (f32_mul (f32_add (V (nth c p0 0)) (V (nth c p1 0))) half_f) in
+  let rgbg := [avg 0%nat; n8_from (nth 1 p0 0); avg 2%nat; n8_from (nth 1 p1 0)] in
+  let yuy2 := let a := yuv8_from p0 in let b := yuv8_from p1 in [nth 0 a 0; mid (nth 1 a 0) (nth 1 b 0); nth 0 b 0; mid (nth 2 a 0) (nth 2 b 0)] in
+  let y216 := let a := yuv16_from p0 in let b := yuv16_from p1 in [nth 0 a 0; mid (nth 1 a 0) (nth 1 b 0); nth 0 b 0; mid (nth 2 a 0) (nth 2 b 0)] in
+  match f with
+  | 35 => [fold_left (fun acc ip => acc + Z.shiftl (n1_from (nth 0 (snd ip) 0)) (7 - Z.of_nat (fst ip))) (combine (seq 0 8) blk) 0]
+  | 36 => rgbg
+  | 37 => [nth 1 rgbg 0; nth 0 rgbg 0; nth 3 rgbg 0; nth 2 rgbg 0]
+  | 38 => [nth 1 yuy2 0; nth 0 yuy2 0; nth 3 yuy2 0; nth 2 yuy2 0]
+  | 39 => yuy2
+  | 40 => flat_map (fun c => le_bytes 2 (Z.land c 65472)) y216
+  | 41 => flat_map (le_bytes 2) y216
+  | _ => []
+  end.
+Fixpoint blocks_of {A} (fuel bw : nat) (row : list A) (last : A) : list (list A) :=
+  match fuel with O => [] | S fu =>
+    match row with [] => [] | _ => let b := firstn bw row in (b ++ repeat last (bw - length b)) :: blocks_of fu bw (skipn bw row) last end end.
+Definition encode_sub_row (f : Z) (row : list (list Z)) : list Z :=
+  let bw := if f =? 35 then 8%nat else 2%nat in
+  flat_map (encode_macro f) (blocks_of (length row) bw row (last row [])).
+Fixpoint rows_of {A} (fuel w : nat) (l : list A) : list (list A) :=
+  match fuel with O => [] | S fu => match l with [] => [] | _ => firstn w l :: rows_of fu w (skipn w l) end end.
+(* bi-planar: plane 1 row by row, then plane 2 (one chroma pair per 2x2 block: the mean of the four samples) *)
+Definition encode_biplanar (f : Z) (w : nat) (px : list (list Z)) : list Z :=
+  let rows := rows_of (length px) w px in
+  let from := if f =? 42 then yuv8_from else if f =? 43 then yuv10_from else yuv16_from in
+  let yb := fun v => if f =? 42 then [v] else if f =? 43 then le_bytes 2 (Z.shiftl v 6) else le_bytes 2 v in
+  let plane1 := flat_map (fun r => flat_map (fun p => yb (nth 0 (from p) 0)) r) rows in
+  let pairs := rows_of (length rows) 2 rows in
+  let plane2 := flat_map (fun pr =>
+      let r0 := nth 0 pr [] in let r1 := nth 1 pr [] in
+      flat_map (fun x => let blk := map from [nth (2 * x) r0 []; nth (2 * x + 1) r0 []; nth (2 * x) r1 []; nth (2 * x + 1) r1 []] in
+                         let u := fold_right Z.add 0 (map (fun y => nth 1 y 0) blk) / 4 in
+                         let v := fold_right Z.add 0 (map (fun y => nth 2 y 0) blk) / 4 in
+                         yb u ++ yb v) (seq 0 (w / 2))) pairs in
+  plane1 ++ plane2.
+(* any of the 45 formats, image of width w given as the flat list of its channel values *)
+Definition encode_image_wh (f channels prec : Z) (w : nat) (values : list Z) : list Z :=
+  let px := map (to_rgba_f32 channels prec) (chunksZ (length values) (chcountZ channels) values) in
+  if f <? 35 then flat_map (encode_px f) px
+  else if f <? 42 then flat_map (encode_sub_row f) (rows_of (length px) w px)
+  else encode_biplanar f w px.
